@@ -302,11 +302,13 @@ def keyLt (a b : PyVal) : Bool :=
     | some x, some y => lexLt x y
     | _, _ => false
 
-/-- insertion by `<` on the keys, generic in what is carried along with each key -/
+/-- insertion by `<` on the keys, generic in what is carried along with each key: `x` — which stood before everything in the
+list — goes in front of the first entry that is not smaller than it, so entries that `<` cannot tell apart keep their order -/
 def insertK {α} (x : PyVal × α) : List (PyVal × α) → List (PyVal × α)
   | [] => [x]
-  | y :: r => if keyLt (sortKey x.1) (sortKey y.1) then x :: y :: r else y :: insertK x r
-/-- stable insertion sort by `<` on the keys (Python's `sorted` is stable and uses only `<`) -/
+  | y :: r => if keyLt (sortKey y.1) (sortKey x.1) then y :: insertK x r else x :: y :: r
+/-- stable insertion sort by `<` on the keys (Python's `sorted` is stable and uses only `<`): the entries are inserted from the
+last to the first (`Props/SortSpec.lean`: the result is ordered and stable whenever `<` is transitive on the keys) -/
 def sortK {α} (xs : List (PyVal × α)) : List (PyVal × α) := xs.reverse.foldl (fun acc x => insertK x acc) []
 
 def insertPD (x : PairDocs) (xs : List PairDocs) : List PairDocs := insertK x xs
